@@ -96,6 +96,38 @@ def make_points(all_names, rng, n_extra=2):
     return pts
 
 
+class VecElemSetter:
+    """Parameter-like handle of element k of a VectorParameter: set() goes through VectorParameter.set with the whole array
+    (every other element unchanged) on even calls and through the element's own Parameter.set on odd calls."""
+
+    def __init__(self, vp, k):
+        self.vp, self.k, self.n = vp, k, 0
+
+    def set(self, value):
+        self.n += 1
+        if self.n % 2:
+            vals = [float(np.asarray(p.value)) for p in self.vp]
+            vals[self.k] = value
+            self.vp.set(vals)
+        else:
+            self.vp[self.k].set(value)
+
+
+class PointBuffer:
+    """One numpy array per compiled callable, overwritten in place for every further point - the way iterative
+    callers (SciPy's SLSQP, a hand-written descent loop `x -= step * g(x)`) hand points to a callable."""
+
+    def __init__(self):
+        self.buf = None
+
+    def at(self, values):
+        if self.buf is None or len(self.buf) != len(values):
+            self.buf = np.array(values, dtype=float)
+        else:
+            self.buf[:] = values
+        return self.buf
+
+
 def fvals(pt):
     return {k: float(v) for k, v in pt.items()}
 
@@ -112,7 +144,10 @@ def oracle(t, pt, pars, deriv=False):
         exact = None              # tolerance must come from the running error bound
     if exact is not None:
         v = exact
-        fv = float(v)
+        try:
+            fv = float(v)
+        except OverflowError:
+            raise Irregular('magnitude')
         if abs(fv) > 1e6:
             raise Irregular('magnitude')
         # intermediate magnitudes: use mp path only for the tolerance when cheap; exact value is the truth
@@ -146,9 +181,15 @@ class Ctx:
         self.looser = 0.0
         self.report_kinds = None      # None: report generic Api divergences for every kind (C11); else only these kinds
         self.pars = {99: Fr(1, 10 ** 12)}      # Api.TinyAtom: the scale of "tiny" literals
-        for c in base_calls:
+        self.parvec = {}          # pid -> (position of the VectorParameter in the base heap, element index, size)
+        for n, c in enumerate(base_calls):
             if c['c'] == 'MkPar':
                 self.pars[c['i']] = apiexec.q(c['lit']['qs'][0])
+            if c['c'] == 'MkVPar':
+                qs = c['lit']['qs']
+                for k in range(c['j']):
+                    self.pars[c['i'] + k] = apiexec.q(qs[k] if len(qs) == c['j'] and c['lit']['sh'] else qs[0])
+                    self.parvec[c['i'] + k] = (n + 1, k, c['j'])
 
 
 def build_base(ctx):
@@ -284,6 +325,8 @@ def judge_state(st, ctx, part):
                 from . import apirun
                 ctx.varmap = apirun.varmap(objs)
                 ctx.parobjs = {c['i']: objs[n + 1] for n, c in enumerate(ctx.base_calls) if c['c'] == 'MkPar'}
+                for pid, (h, k, size) in ctx.parvec.items():
+                    ctx.parobjs[pid] = VecElemSetter(objs[h], k)
                 part['_own'] = pkey(calls, len(calls))
                 part['_prefixes'] = [pkey(calls, n) for n in range(1, len(calls))]
                 ctx.cur_objs = objs
